@@ -8,3 +8,10 @@ import WitnessVerif.Props.C01
 import WitnessVerif.Props.C03
 import WitnessVerif.Props.C09
 import WitnessVerif.Props.C20
+import WitnessVerif.Model.Bastion
+import WitnessVerif.Model.ProofFmt
+import WitnessVerif.Proofs.Base64
+import WitnessVerif.Props.C02
+import WitnessVerif.Props.C10
+import WitnessVerif.Props.C11
+import WitnessVerif.Props.C19
